@@ -313,6 +313,10 @@ def gen_spec(rng, idx):
                     default = rng.choice(cs)
             out.append([py, ir, kind, tree, default])
         spec[which] = out
+    if rng.random() < .25:
+        spec["inherit"] = {c: rng.randint(0, len(spec[c]["defs"])) for c in CONSTRUCTS}
+        spec["inherit"]["fields"] = [x[0] for which in ("props", "attrs") for x in spec[which] if rng.random() < .5]
+        spec["inherit"]["options_in_parent"] = rng.random() < .3
     return spec
 
 
@@ -384,7 +388,21 @@ def build_class(spec, rng):
         d[k] = v
     if options and "irdl_options" not in d:
         d["irdl_options"] = tuple(options)
-    cls = type("C10Op_" + spec["name"].split(".")[1], (o.IRDLOperation,), d)
+    parent = o.IRDLOperation
+    if spec.get("inherit"):
+        # a tail of every list (and some properties/attributes) is declared in an undecorated parent class;
+        # from_pyrdl walks the MRO subclass-first, so the declaration order of the spec is preserved
+        in_parent = set()
+        for c in CONSTRUCTS:
+            names = [x[0] for x in spec[c]["defs"]]
+            in_parent.update(names[spec["inherit"][c]:])
+        in_parent.update(x[0] for which in ("props", "attrs") for x in spec[which] if x[0] in spec["inherit"]["fields"])
+        pd = {k: v for k, v in d.items() if k in in_parent}
+        if spec["inherit"]["options_in_parent"] and "irdl_options" in d:
+            pd["irdl_options"] = d.pop("irdl_options")
+        d = {k: v for k, v in d.items() if k not in in_parent}
+        parent = type("C10Base_" + spec["name"].split(".")[1], (o.IRDLOperation,), pd)
+    cls = type("C10Op_" + spec["name"].split(".")[1], (parent,), d)
     return o.irdl_op_definition(cls)
 
 
@@ -577,7 +595,9 @@ def perturb(spec, inst, rng):
             del cont[rng.choice(sorted(cont))]
             return inst, what + "-drop"
         if k < .6:
-            cont["undeclared.x"] = rng.choice(list(R.POOL_TAGS))
+            nm = rng.choice(["undeclared.x", "undeclared.x", "operandSegmentSizes", "resultSegmentSizes"])
+            if nm not in cont:
+                cont[nm] = rng.choice(list(R.POOL_TAGS) + [["dense", "i32", [1, 1]]])
             return inst, what + "-undeclared"
         if cont:
             cont[rng.choice(sorted(cont))] = rng.choice(list(R.POOL_TAGS) + [["dense", "i32", [1, 2]]])
@@ -1076,6 +1096,8 @@ def work_gen(job, out):
                 out.inc(f"defs_multi_variadic_{c}_{spec[c]['mode']}")
         if R.shared_vars(spec):
             out.inc("definitions_with_shared_variable")
+        if spec.get("inherit"):
+            out.inc("definitions_with_inherited_fields")
         d = cls.get_irdl_definition()
         assert [n for n, _ in d.operands] == [v[0] for v in spec["operand"]["defs"]], "harness: operand order"
         assert [n for n, _ in d.results] == [v[0] for v in spec["result"]["defs"]], "harness: result order"
@@ -1404,7 +1426,7 @@ def work_corpus(job, out):
 def plan(tier, seed):
     jobs = []
     if tier == "quick":
-        ngen, defs, nreg, trials, ncorp = 32, 48, 8, 8, 16
+        ngen, defs, nreg, trials, ncorp = 16, 80, 4, 8, 12
     else:
         ngen, defs, nreg, trials, ncorp = 96, 640, 16, 40, 16
     for i in range(ngen):
@@ -1433,6 +1455,10 @@ def work(job):
         check_raw(out, cls, spec, inst, "replay", True)
     else:
         raise ValueError(kind)
+    nts = out.res["nontrivial"]
+    out.C["nontrivial_cases"] = len(nts)
+    if len(nts) > 4000:              # keep the evidence files small; the counter above has the total
+        out.res["nontrivial"] = nts[:4000]
     out.res["extra"] = {}
     return out.res
 
